@@ -314,6 +314,13 @@ def rule_display(ctx):
         obs.append(undecided('DISPLAY-FORMAT', 'Error::fmt/shape', 'Error::fmt does not end in a write! call', fn.loc))
         return obs
     fs = P.fmt_string(final['text'])
+    # named arguments (`{path}:{line}:..`, `path = .., line = ..`): positional when the `name = value` pairs are given in
+    # the order of the placeholders, which is how the argument list is read below
+    named = re.findall(r'\{([A-Za-z_][A-Za-z0-9_]*)\}', fs or '')
+    if named and len(named) == (fs or '').count('{'):
+        given = re.findall(r',\s*([A-Za-z_][A-Za-z0-9_]*)\s*=[^=]', final['text'])
+        if given == named:
+            fs = re.sub(r'\{[A-Za-z_][A-Za-z0-9_]*\}', '{}', fs)
     if fs != '{}:{}:{}: {}':
         obs.append(bad('DISPLAY-FORMAT', 'Error::fmt/pieces', 'format string is %r, expected "{}:{}:{}: {}"' % fs, final.get('sp', ''),
                        'Display is not `path:line:column: message`'))
@@ -587,8 +594,43 @@ def rule_derive_options(ctx):
         nf, nenv = env_of(n)
         t = ctx.pv.eval(nf, n['args'][0], nenv, 0)
         cs = _calls_in_term(t)
+        if not any('attributes::' in p for p, a in cs):
+            # `apply(extract_x(input), |v| options.set_x(v))`: the setter sits in a closure handed to a private helper
+            # together with the extraction result — the closure parameter is that result
+            for par_, role_, _c in nf.ancestors(n):
+                if par_.get('k') == 'closure':
+                    pr_ = nf.parent.get(id(par_))
+                    while pr_ and pr_[0] is not None and pr_[0].get('k') in ('wrap', 'ref'):
+                        pr_ = nf.parent.get(id(pr_[0]))
+                    if pr_ and pr_[0] is not None and pr_[0].get('k') in ('call', 'mcall') and ctx.pv.local_fns(pr_[0].get('callee')):
+                        for a_ in pr_[0].get('args', []):
+                            if a_ is par_ or any(x_ is par_ for x_ in walk(a_)):
+                                continue
+                            t2_ = ctx.pv.eval(nf, a_, nenv, 0)
+                            cs2_ = _calls_in_term(t2_)
+                            if any('attributes::' in p for p, a in cs2_):
+                                t = t2_
+                                cs = cs2_
+                    break
         hit = [(p, a) for p, a in cs if p.endswith('attributes::' + extractor)]
         others = [(p, a) for p, a in cs if 'attributes::' in p and not p.endswith('attributes::' + extractor)]
+        if not hit and others and key is not None:
+            # a new wrapper of the attributes module: accepted when all it reads is this option's key
+            still = []
+            for p_, a_ in others:
+                wf_ = ctx.fn('derive', p_)
+                wkeys = set()
+                if wf_ is not None:
+                    for c_ in H.calls_in(wf_):
+                        if ctx.pv.local_fns(c_.get('callee')):
+                            for x_ in c_['args']:
+                                if x_.get('k') == 'lit' and x_['lit'].get('lk') == 'str':
+                                    wkeys.add(x_['lit']['v'])
+                if wkeys == {key}:
+                    hit.append((p_, (('const', key),)))
+                else:
+                    still.append((p_, a_))
+            others = still
         if not hit or others:
             obs.append(bad('ATTR-PLUMB', inst, '%s receives %s' % (setter, [p.split('::')[-1] + str([x[1] for x in a if x[0] == 'const']) for p, a in cs if 'attributes::' in p]),
                            n.get('sp', ''), 'a value written under one key configures another option'))
@@ -653,6 +695,25 @@ def rule_derive_options(ctx):
         # optional setters only when extraction succeeded
         pcs = P.path_conds(nf, n)
         if setter in ('set_variables_derives', 'set_response_derives', 'set_custom_scalars_module', 'set_extern_enums', 'set_deprecation_strategy', 'set_normalization'):
+            if not pcs:
+                # the condition may live in the private helper the closure is handed to (`fn apply(r, f) { if let Ok(v) = r { f(v) } }`)
+                for par_, role_, _c in nf.ancestors(n):
+                    if par_.get('k') == 'closure':
+                        pr_ = nf.parent.get(id(par_))
+                        while pr_ and pr_[0] is not None and pr_[0].get('k') in ('wrap', 'ref'):
+                            pr_ = nf.parent.get(id(pr_[0]))
+                        if pr_ and pr_[0] is not None and pr_[0].get('k') in ('call', 'mcall'):
+                            for hf_ in ctx.pv.local_fns(pr_[0].get('callee')) or []:
+                                phids = set()
+                                for p_ in hf_.params:
+                                    if p_.get('k') == 'bind':
+                                        phids.add(p_['hid'])
+                                for c_ in hf_.walk(lambda x: x['k'] == 'call'):
+                                    f_ = c_.get('f') or {}
+                                    if f_.get('k') == 'path' and (f_.get('res') or {}).get('hid') in phids:
+                                        if [pc for pc in P.path_conds(hf_, c_) if pc[0] in ('if', 'match', 'letelse', 'nomatch')]:
+                                            pcs = [('helper',)]
+                        break
             if pcs:
                 obs.append(ok('ATTR-DEFAULTS', inst, 'setter runs only when the key was found/valid; otherwise the default stays', n.get('sp', '')))
             else:
